@@ -5,6 +5,7 @@ import (
 	"os"
 	"runtime/debug"
 	"sort"
+	"strconv"
 	"strings"
 
 	"github.com/openziti/storage/ast"
@@ -317,6 +318,34 @@ func runC01(c *core.Ctx, idx int) {
 					e = qx.And{L: qx.Not{E: qx.IsEmpty{Sub: outer}}, R: qx.Cmp{L: qx.LHS{Kind: "sym", Sym: "ibig"}, Op: "!=", R: []qx.Lit{qx.LNull()}}}
 				}
 				c.Count("scripted_sub_queries_two_deep", 1)
+			}
+			if store == qx.Things && !viaChild && k >= 12 && k < 16 {
+				// a map element that holds a float, asked for by a list / a range of floats around its value
+				var elem string
+				var fv float64
+				for _, id := range all {
+					if meta, ok := env.w.Rows[qx.Things][id].V["meta"].(map[string]any); ok {
+						for _, mk := range []string{"f", "flag", "k", "n", "when"} {
+							if x, isF := meta[mk].(float64); isF && elem == "" && x == x && x > -1e15 && x < 1e15 {
+								elem, fv = "meta."+mk, x
+							}
+						}
+					}
+				}
+				if elem != "" {
+					fl := func(x float64) qx.Lit { return qx.LFloat(x, strconv.FormatFloat(x, 'f', -1, 64)) }
+					switch k {
+					case 12:
+						e = qx.Cmp{L: qx.LHS{Kind: "sym", Sym: elem}, Op: "in", R: []qx.Lit{fl(fv), fl(99.5)}}
+					case 13:
+						e = qx.Cmp{L: qx.LHS{Kind: "sym", Sym: elem}, Op: "between", R: []qx.Lit{fl(fv - 0.25), fl(fv + 0.25)}}
+					case 14:
+						e = qx.Cmp{L: qx.LHS{Kind: "sym", Sym: elem}, Op: "not in", R: []qx.Lit{fl(fv), fl(98.5)}}
+					default:
+						e = qx.Cmp{L: qx.LHS{Kind: "sym", Sym: elem}, Op: "not between", R: []qx.Lit{fl(fv - 0.25), fl(fv + 0.25)}}
+					}
+					c.Count("scripted_float_lists_over_a_float_map_element", 1)
+				}
 			}
 			if viaKidlist && k < 5 {
 				// every member of the set typed to the child store, counted: the list also holds ids without child data and,
